@@ -66,6 +66,13 @@ def templates():
         ('macro-duplicate', 'def dupmac {\n;\n}\ndef dupmac {\n;\n}\ndupmac\n', True, 'dupmac'),
         ('macro-unknown', ';\nnosuchmacro 1, 2\n', True, 'nosuchmacro'),
         ('macro-arity', 'def aritymac x {\n;x\n}\naritymac 1, 2\n', True, 'aritymac'),
+        # a wrong number of arguments for a name with several overloads: below / between / above them, also through a rep
+        ('macro-arity-between-two-overloads', 'def ovmac x {\n;x\n}\ndef ovmac x, y, z {\n;x\n}\novmac 1, 2\n', True, 'ovmac'),
+        ('macro-arity-above-two-overloads', 'def ovmac x {\n;x\n}\ndef ovmac x, y {\n;x\n}\novmac 1, 2, 3, 4\n', True, 'ovmac'),
+        ('macro-arity-below-two-overloads', 'def ovmac x, y {\n;x\n}\ndef ovmac x, y, z, t {\n;x\n}\novmac\n', True, 'ovmac'),
+        ('macro-arity-between-three-overloads', 'def ovmac {\n;\n}\ndef ovmac x, y {\n;x\n}\ndef ovmac x, y, z, t {\n;x\n}\novmac 1, 2, 3\n', True, 'ovmac'),
+        ('rep-arity-between-two-overloads', 'def ovmac x {\n;x\n}\ndef ovmac x, y, z {\n;x\n}\nrep(2, i) ovmac i, i\n', True, 'ovmac'),
+
         ('macro-param-twice', 'def m xx, xx {\n;xx\n}\nm 1, 2\n', True, 'xx'),
         ('macro-param-is-const', 'kk = 3\ndef m kk {\n;kk\n}\nm 1\n', True, 'kk'),
         ('macro-recursion', 'def recmac {\nrecmac\n}\nrecmac\n', True, 'recmac'),
